@@ -65,7 +65,11 @@ def check_cases(report, work, vh, prelude, cases, predicates=None, family="eval"
 
     good = []
     for rec in recs:
-        if rec.get("hang"):
+        if "fatal" in rec:
+            report.violation("the process dies of a runtime fatal error running %r: %s" % (rec["src"], rec["fatal"]),
+                             {"family": family, "case": {"src": rec["src"], "input": {"t": "null"}}, "actual": {"fatal": rec["fatal"]}})
+            bump("fatal")
+        elif rec.get("hang"):
             report.violation("a run of %r does not return and does not react to its cancelled context" % rec["src"],
                              {"family": family, "case": {"src": rec["src"], "input": rec.get("input", {"t": "null"})}, "actual": {"hang": True}})
             bump("hang")
